@@ -19,6 +19,7 @@ import (
 	"path/filepath"
 	"reflect"
 	"sort"
+	"strconv"
 	"strings"
 	"time"
 
@@ -232,6 +233,9 @@ func subBodies(out string, seed uint64, tier string, arg string) {
 	seen := map[string]bool{}
 	outcomes := map[string]map[string]bool{}
 	run := func(c *x509.Certificate, origin string) {
+		if len(c.Raw) == 0 {
+			return
+		}
 		line, ok := bodyView(c, fields)
 		if !ok {
 			rep.count("view-failed")
@@ -248,8 +252,14 @@ func subBodies(out string, seed uint64, tier string, arg string) {
 				outcomes[n] = map[string]bool{}
 			}
 			outcomes[n][toks[i]] = true
+			// the properties themselves, on the real code: a translated rule must not panic (C02) and must respect its prefix (C06)
 			if toks[i] == "P" {
 				rep.count("panic:" + n)
+				rep.violate(Violation{"C02", fmt.Sprintf("lint %s panics in CheckApplies/Execute called directly on a %s certificate", n, origin), "panic:" + n,
+					replayOf(&Obj{Kind: "cert", Name: origin, DER: c.Raw}, map[string]interface{}{"lint": n})})
+			} else if st, err := strconv.Atoi(toks[i]); err == nil && !prefixAllows(n, lint.LintStatus(st)) {
+				rep.violate(Violation{"C06", fmt.Sprintf("lint %s reported %s on a %s certificate", n, lint.LintStatus(st).String(), origin), fmt.Sprintf("severity:%s:%s", n, lint.LintStatus(st).String()),
+					replayOf(&Obj{Kind: "cert", Name: origin, DER: c.Raw}, map[string]interface{}{"lint": n, "status": lint.LintStatus(st).String()})})
 			}
 		}
 		fmt.Fprintln(wo, line)
